@@ -254,6 +254,21 @@ struct BarState {
     bool overlap = false;
 } bar;
 
+//! step(): ThreadBarrierSpin documents a generation COUNTER that is stepped after the action ("After lambda, step the
+//! generation counter"), ThreadBarrierMutex a generation BIT (0 or 1) without saying when it flips relative to the action
+inline void check_step_in_action(const tlx::ThreadBarrierSpin& b, int g) {
+    SCHED_CHECK(b.step() == (size_t)g, "C11/barrier-step", "ThreadBarrierSpin::step() = " << b.step() << " inside the action of generation " << g);
+}
+inline void check_step_in_action(const tlx::ThreadBarrierMutex& b, int g) {
+    SCHED_CHECK(b.step() <= 1, "C11/barrier-step", "ThreadBarrierMutex::step() = " << b.step() << " inside the action of generation " << g);
+}
+inline void check_step_at_end(const tlx::ThreadBarrierSpin& b, int G) {
+    SCHED_CHECK(b.step() == (size_t)G, "C11/barrier-step", "ThreadBarrierSpin::step() = " << b.step() << " after " << G << " generations");
+}
+inline void check_step_at_end(const tlx::ThreadBarrierMutex& b, int G) {
+    SCHED_CHECK(b.step() == (size_t)(G & 1), "C11/barrier-step", "ThreadBarrierMutex::step() = " << b.step() << " after " << G << " generations");
+}
+
 //! which entry point a thread uses in a generation (per thread x generation), and whether the generation's
 //! calls carry an action (per generation: the action that runs is the LAST ARRIVER's, so all calls of one
 //! generation carry it or none does)
@@ -306,6 +321,7 @@ void barrier_execute(int n, int G, const BarPlan& plan, int extra) {
                 SCHED_CHECK(bar.inside[(size_t)me], "harness/action-thread", "action on a thread that is not inside the barrier");
                 bar.actions[(size_t)g]++;
                 SCHED_CHECK(bar.actions[(size_t)g] == 1, "C11/barrier-action-twice", "action of generation " << g << " ran twice");
+                check_step_in_action(b, g);
             };
             const bool use_yield = plan.use_yield[(size_t)me][(size_t)g] != 0, with_action = plan.with_action[(size_t)g] != 0;
             if (with_action) {
@@ -334,6 +350,7 @@ void barrier_execute(int n, int G, const BarPlan& plan, int extra) {
         body(0);
         for (auto& t : th) t.join();
     }
+    check_step_at_end(b, G);
     for (int g = 0; g < G; ++g) {
         SCHED_CHECK(bar.leaves[(size_t)g] == n, "C11/barrier-lost-thread", "generation " << g << ": " << bar.leaves[(size_t)g] << " of " << n << " left");
         if (plan.with_action[(size_t)g]) SCHED_CHECK(bar.actions[(size_t)g] == 1, "C11/barrier-action-count", "generation " << g << ": action ran " << bar.actions[(size_t)g] << " times");
